@@ -566,6 +566,12 @@ impl TransactionBuilder {
     for output in &transaction.output {
       if output.script_pubkey == self.recipient {
         let slop = self.fee_rate.fee(Self::ADDITIONAL_OUTPUT_VBYTES);
+        let change_dust = self
+          .change_addresses
+          .iter()
+          .map(|address| address.script_pubkey().minimal_non_dust())
+          .max()
+          .unwrap_or_default();
 
         match self.target {
           Target::Postage => {
@@ -576,20 +582,13 @@ impl TransactionBuilder {
           }
           Target::ExactPostage(postage) => {
             assert!(
-              output.value <= postage + slop,
+              output.value <= postage + change_dust + slop,
               "invariant: excess postage is stripped"
             );
           }
           Target::Value(value) => {
             assert!(
-              output.value.checked_sub(value).unwrap()
-                <= self
-                  .change_addresses
-                  .iter()
-                  .map(|address| address.script_pubkey().minimal_non_dust())
-                  .max()
-                  .unwrap_or_default()
-                  + slop,
+              output.value.checked_sub(value).unwrap() <= change_dust + slop,
               "invariant: output equals target value",
             );
           }
